@@ -34,7 +34,7 @@ func inMapping(c *syzgydb.Collection, b []byte) bool {
 
 func snapshotC11(o *Opts) {
 	res := NewResult("C11", "snapshot", o.Seed, o.Tier)
-	res.Rule = "values returned by GetDocument and by Search in every mode (exact, default, listing) are tested at return time for pointing into the file mapping (verif accessor), held across later overwrites, removals, space reuse, file growth and Close, and compared with a copy taken at return time; " +
+	res.Rule = "values returned by GetDocument and by Search in every mode (exact, default, radius, listing; on the creating handle, on a read-only reopen and on a read-write reopen) are tested at return time for pointing into the file mapping (verif accessor), held across later overwrites, removals, space reuse, file growth and Close, and compared with a copy taken at return time; " +
 		"caller slices passed to AddDocument/UpdateDocument are mutated after the call; distinct = distinct held value"
 	nscen := 40
 	if o.Tier == "thorough" {
@@ -176,6 +176,46 @@ func snapshotC11(o *Opts) {
 			ok++
 		}
 		res.TracesValidated += ok
+		// the same file reopened read-only and read-write: results of a reopened collection are private too
+		// (a read-only mapping is unmapped by Close like any other, and another handle may rewrite the file)
+		for _, mode := range []struct {
+			name string
+			fm   syzgydb.FileMode
+		}{{"read-only", syzgydb.ReadOnly}, {"reopened", syzgydb.ReadWrite}} {
+			c2, err := syzgydb.NewCollection(syzgydb.CollectionOptions{Name: path, FileMode: mode.fm})
+			if err != nil {
+				res.Violate("impl-failure", "C11/reopen-failed", fmt.Sprintf("reopening the file %s: %v", mode.name, err), map[string]any{"scenario": si})
+				continue
+			}
+			check := func(what string, meta []byte) {
+				res.Evaluations++
+				res.Hit("held:" + what)
+				if inMapping(c2, meta) {
+					res.Violate("impl-failure", "C11/result-aliases-mapping/"+what, fmt.Sprintf("%s returned a Metadata slice that points into the file mapping (it faults after Close and changes when the file is rewritten through another handle)", what),
+						map[string]any{"scenario": si, "api": what})
+				} else {
+					res.TracesValidated++
+				}
+			}
+			for id := range live {
+				if d, err := c2.GetDocument(id); err == nil {
+					check("GetDocument("+mode.name+")", d.Metadata)
+				}
+			}
+			for _, r := range c2.Search(syzgydb.SearchArgs{Vector: vecOf(), K: 3, Precision: "exact"}).Results {
+				check("Search(exact,"+mode.name+")", r.Metadata)
+			}
+			for _, r := range c2.Search(syzgydb.SearchArgs{Vector: vecOf(), K: 3}).Results {
+				check("Search(default,"+mode.name+")", r.Metadata)
+			}
+			for _, r := range c2.Search(syzgydb.SearchArgs{Vector: vecOf(), Radius: 10}).Results {
+				check("Search(radius,"+mode.name+")", r.Metadata)
+			}
+			for _, r := range c2.Search(syzgydb.SearchArgs{Limit: 3}).Results {
+				check("Search(listing,"+mode.name+")", r.Metadata)
+			}
+			c2.Close()
+		}
 		if si == 0 {
 			res.Sample(map[string]any{"scenario": si, "held_values": len(helds), "dim": dim, "quant": q})
 		}
